@@ -72,6 +72,13 @@ def run(seed=0):
                 ("isclose", lambda: NPX.isclose(_c(a), _c(b), rtol=0.3), lambda: np.isclose(a, b, rtol=0.3)),
                 ("nonzero", lambda: NPX.nonzero(_c(np.round(a)))[0], lambda: np.nonzero(np.round(a))[0]),
                 ("maximum", lambda: np.maximum(_c(a), _c(b)), lambda: np.maximum(a, b)),
+                ("floor", lambda: np.floor(_c(a)), lambda: np.floor(a)),
+                ("ceil", lambda: np.ceil(_c(a)), lambda: np.ceil(a)),
+                ("trunc", lambda: np.trunc(_c(a)), lambda: np.trunc(a)),
+                ("mod", lambda: np.mod(_c(a), 1.5), lambda: np.mod(a, 1.5)),
+                ("mod-neg-divisor", lambda: np.mod(_c(a), -0.7), lambda: np.mod(a, -0.7)),
+                ("floor_divide", lambda: np.floor_divide(_c(a), 0.7), lambda: np.floor_divide(a, 0.7)),
+                ("clip", lambda: NPX.clip(_c(a), 0.0, 1.0), lambda: np.clip(a, 0.0, 1.0)),
                 ("le-and", lambda: (_c(a) <= 2.0) & (_c(b) > 0.5), lambda: (a <= 2.0) & (b > 0.5)),
                 ("linalg.norm", lambda: None if n < 2 else NPX.linalg.norm(_c(np.abs(a) + 1)) ** 2,
                  lambda: None if n < 2 else np.linalg.norm(np.abs(a) + 1) ** 2),
